@@ -25,6 +25,7 @@ func runC01(c *Ctx) {
 		c.R.Floor("C01.append", cfg.Name, n, 90)
 		ruleColumnShape(c, p)
 		ruleElementWidth(c, p, "C01.width")
+		ruleEndian(c, p, "C01.endian")
 	}
 	p := c.Prog(core.CfgDefault)
 	if p == nil {
@@ -39,6 +40,7 @@ func runC01(c *Ctx) {
 	ruleInferTables(c, p, "C01")
 	ruleOffsetsAppend(c, p)
 	ruleNullFlag(c, p)
+	ruleStateSet(c, p)
 	ruleResetBefore(c, p, "C01.reset")
 	c.R.Assumptions = append(c.R.Assumptions,
 		"decided: append-only encoders, agreement of encoder / vectored writer / decoder on sequence and width of what is on the wire in every build configuration and revision, LowCardinality key width and per-width key columns, state/prepare forwarding of wrappers; not decided: equality of decoded and encoded values for all inputs")
@@ -699,4 +701,49 @@ func ruleNullFlag(c *Ctx, p *core.Program) {
 			c.R.Ok(rule, "ColNullable", cfg, p.Pos(app.Pos()), sprintf("set <-> mask %d in Append, Row and IsElemNull", setConst))
 		}
 	}
+}
+
+// ruleStateSet: receiver agreement of the two halves of a state codec.
+func ruleStateSet(c *Ctx, p *core.Program) {
+	rule := "C01.stateset"
+	c.R.Rule(rule, "method-set agreement (go/types): for every proto type that declares EncodeState or DecodeState, whichever of T and *T has the Column method set (so can sit inside Array / Tuple / Map / Nullable as an element) has both halves of the state codec or neither: containers forward state through `x.(StateEncoder)` / `x.(StateDecoder)` type tests, and a half missing from the method set silently drops the prefix in one direction")
+	cfg := p.Cfg.Name
+	sc := p.Pkgs[core.PkgProto].Types.Scope()
+	n := 0
+	for _, nm := range sc.Names() {
+		tn, ok := sc.Lookup(nm).(*types.TypeName)
+		if !ok || tn.IsAlias() {
+			continue
+		}
+		ct, ok := tn.Type().(*types.Named)
+		if !ok {
+			continue
+		}
+		if _, isIface := ct.Underlying().(*types.Interface); isIface {
+			continue
+		}
+		declares := false
+		for i := 0; i < ct.NumMethods(); i++ {
+			if m := ct.Method(i).Name(); m == "EncodeState" || m == "DecodeState" {
+				declares = true
+			}
+		}
+		if !declares {
+			continue
+		}
+		n++
+		bad := false
+		for _, x := range []types.Type{ct, types.NewPointer(ct)} {
+			ms := types.NewMethodSet(x)
+			has := func(m string) bool { return ms.Lookup(ct.Obj().Pkg(), m) != nil }
+			if has("EncodeColumn") && has("DecodeColumn") && has("EncodeState") != has("DecodeState") {
+				bad = true
+				c.R.Bad(rule, nm, cfg, p.Pos(tn.Pos()), sprintf("%s is usable as a column and has EncodeState=%v but DecodeState=%v in its method set: a container holding it handles the state prefix in one direction only", types.TypeString(x, types.RelativeTo(ct.Obj().Pkg())), has("EncodeState"), has("DecodeState")))
+			}
+		}
+		if !bad {
+			c.R.Ok(rule, nm, cfg, p.Pos(tn.Pos()), "both halves wherever the Column method set is present")
+		}
+	}
+	c.R.Floor(rule, cfg, n, 8)
 }
